@@ -259,6 +259,53 @@ func TestCheck(t *testing.T) {
 			}
 		})
 
+		// every ASCII character alone and in ordered pairs through Code 128, Code 93 and Code 39 full-ASCII
+		// (code-set transitions, escape tables), quick: a third of the pairs
+		{
+			idx := 0
+			var n int64
+			for _, sym := range []string{"CODE128", "CODE93", "CODE39X"} {
+				stop := false
+				for a := 0; a < 128 && !stop; a++ {
+					for b := -1; b < 128 && !stop; b++ {
+						idx++
+						if !c.Mine(idx) || (!c.Thorough() && b >= 0 && (a+b+int(c.P.Seed))%3 != 0) {
+							continue
+						}
+						text := string(rune(a))
+						if b >= 0 {
+							text += string(rune(b))
+						}
+						if sym == "CODE39X" && strings.Trim(text, onedx.Code39Alphabet) == "" {
+							continue // alphabet-only content is not converted to full-ASCII mode: the plain reader's domain
+						}
+						cs := Case{Sym: sym, Content: text, Canonical: text, Margin: -1}
+						raw, _ := json.Marshal(cs)
+						if err := hx.Safe(func() error { return check(raw) }); err != nil {
+							stop = !c.Enum("ascii_pairs_exhaustive", "oned_roundtrip", cs, nil)
+						}
+						n++
+					}
+				}
+			}
+			c.NoteBulk("ascii_pairs_exhaustive", "", n, n, func() any { return Case{Sym: "CODE128", Content: "\x01`", Canonical: "\x01`", Margin: -1} })
+			c.SetExhaustive("ascii_pairs_exhaustive", c.Thorough())
+		}
+		// every ITF length the reader accepts, every Codabar guard pair with every data character
+		{
+			idx := 0
+			for n := 6; n <= 80; n += 2 {
+				idx++
+				if c.Mine(idx) {
+					d := strings.Repeat("0123456789", 8)[:n]
+					cs := Case{Sym: "ITF", Content: d, Canonical: d, Margin: -1, ReqH: 5}
+					c.NoteBulk("itf_all_lengths", "", 1, 1, func() any { return cs })
+					c.Enum("itf_all_lengths", "oned_roundtrip", cs, nil)
+				}
+			}
+			c.SetExhaustive("itf_all_lengths", true)
+		}
+
 		// malformed contents must be rejected
 		c.Rapid("rejects", c.N(1500, 15000), func(t *rapid.T) {
 			rng := hx.NewRng(rapid.Uint64().Draw(t, "content"))
